@@ -473,3 +473,64 @@ func RetVals(ret *ssa.Return) []ssa.Value {
 	}
 	return out
 }
+
+// EarlyLoopExits lists the places where a loop of f is left other than through its header (break, goto, and -
+// unless allowReturn - return). Used for iterations that must examine every element of a collection.
+func EarlyLoopExits(p *Prog, f *ssa.Function, allowReturn bool) []string {
+	var out []string
+	for _, lp := range NaturalLoops(f) {
+		// the regular exits: successors of the header outside the loop
+		regular := map[*ssa.BasicBlock]bool{}
+		for _, sc := range lp.Header.Succs {
+			if !lp.Blocks[sc] {
+				regular[sc] = true
+			}
+		}
+		if len(regular) == 0 {
+			continue // for { ... }: leaving it is its normal end
+		}
+		reachesRegular := func(from *ssa.BasicBlock) bool {
+			seen := map[*ssa.BasicBlock]bool{}
+			work := []*ssa.BasicBlock{from}
+			for len(work) > 0 {
+				b := work[len(work)-1]
+				work = work[:len(work)-1]
+				if seen[b] {
+					continue
+				}
+				seen[b] = true
+				if regular[b] {
+					return true
+				}
+				work = append(work, b.Succs...)
+			}
+			return false
+		}
+		for b := range lp.Blocks {
+			if b == lp.Header {
+				continue
+			}
+			for _, sc := range b.Succs {
+				if lp.Blocks[sc] {
+					continue
+				}
+				// a return out of the loop does not rejoin the code after the loop
+				if allowReturn && !reachesRegular(sc) {
+					continue
+				}
+				out = append(out, posOfBlock(p, b))
+			}
+		}
+	}
+	sort.Strings(out)
+	return out
+}
+
+func posOfBlock(p *Prog, b *ssa.BasicBlock) string {
+	for i := len(b.Instrs) - 1; i >= 0; i-- {
+		if b.Instrs[i].Pos().IsValid() {
+			return p.Pos(b.Instrs[i].Pos())
+		}
+	}
+	return p.FuncKey(b.Parent())
+}
